@@ -34,6 +34,8 @@ type C20 struct {
 	Leg  string `json:"leg,omitempty"`
 	// Rounds: (leg R) every repetition runs on a fresh queue and its history is checked on its own
 	Rounds bool `json:"rounds,omitempty"`
+	// Windows: the producer's chunks are windows of two buffers of its own, handed out in turn
+	Windows bool `json:"windows,omitempty"`
 	Reps int    `json:"reps,omitempty"` // mode R: repetitions of the op lists
 	Long int    `json:"long,omitempty"` // one long seeded sequential history of this many operations
 }
@@ -45,6 +47,7 @@ func genC20(seed uint64, run int, tier string) Scenario {
 	sc := &C20{Leg: leg}
 	genSched(kernel.Stream(rs, "sched"), &sc.Common)
 	sc.Class = "queue"
+	sc.Windows = kernel.Stream(rs, "windows").IntN(4) == 0
 	if leg == "R" {
 		sc.Uncontrol = true
 		sc.Class = "queue/race"
@@ -208,6 +211,7 @@ func runC20Body(env *Env, sc *C20, round, reps int) {
 			env.K.Yield(p)
 		}
 	}
+	wbuf := [2][]byte{make([]byte, 0, 1<<16), make([]byte, 0, 1<<16)}
 	prod := func() {
 		for rep := 0; rep < reps; rep++ {
 			for i := range sc.Prod {
@@ -215,9 +219,20 @@ func runC20Body(env *Env, sc *C20, round, reps int) {
 				if sc.Prod[i].Empty {
 					v = ""
 				}
+				chunk := []byte(v)
+				if sc.Windows {
+					// the producer hands out windows of its own two buffers in turn (as a reader
+					// that fills large buffers does): the bytes behind a window are its own too
+					b := &wbuf[(rep*len(sc.Prod)+i)%2]
+					if len(*b)+len(v) <= cap(*b) {
+						start := len(*b)
+						*b = append(*b, v...)
+						chunk = (*b)[start:len(*b)]
+					}
+				}
 				yield("c20.prod")
 				call := seq.Add(1)
-				q.Enqueue([]byte(v))
+				q.Enqueue(chunk)
 				record(0, qIn{"enq", v}, call, qOut{})
 				produced = append(produced, []byte(v))
 			}
@@ -345,6 +360,21 @@ func runC20Body(env *Env, sc *C20, round, reps int) {
 	}
 	if d := q.GetDepth(); d != 0 {
 		env.Fail("depth-mismatch", "", "depth %d after the queue was drained", d)
+	}
+	if sc.Windows {
+		// what the producer wrote into its own buffers is still there
+		var want [2][]byte
+		for k, b := range produced {
+			if len(want[k%2])+len(b) <= 1<<16 {
+				want[k%2] = append(want[k%2], b...)
+			}
+		}
+		for k := range wbuf {
+			if !bytes.Equal(wbuf[k], want[k]) {
+				env.Fail("producer-buffer-modified", "", "the queue wrote into the producer's own buffer %d:\n now  %q\n then %q", k, firstBytes(wbuf[k], 300), firstBytes(want[k], 300))
+			}
+		}
+		env.Probe("chunks-are-windows-of-shared-buffers")
 	}
 	if len(hist) <= 40 {
 		res := porcupine.CheckOperationsTimeout(qModel, hist, 5*time.Second)
